@@ -271,6 +271,11 @@ func (self *visitorUserNode) OnInt64(v int64, n json.Number) error {
 	}
 
 	switch fieldDesc.Kind() {
+	case proto.EnumKind:
+		// enum values travel as numbers (the form p2j emits)
+		if err = self.p.WriteInt32(int32(v)); err != nil {
+			return err
+		}
 	case proto.Int32Kind:
 		convertData := int32(v)
 		if err = self.p.WriteInt32(convertData); err != nil {
